@@ -9,5 +9,8 @@ type UnsupportedGeometryError struct {
 }
 
 func (e UnsupportedGeometryError) Error() string {
+	if e.Type == nil { // a nil geom.Geom has no type
+		return "wkt: unsupported geometry type: <nil>"
+	}
 	return "wkt: unsupported geometry type: " + e.Type.String()
 }
